@@ -286,12 +286,13 @@ def enumerate_paths(fm: FuncModel, start: N, target: N, stop: set[int] | None = 
             yield from rec(s, [s], {start.id, s})
 
 
-def paths_imply(fm: FuncModel, start: N, target: N, goal, translator, names_killing=None) -> str | None:
-    """On every simple path start -> target the branch conditions taken (those not invalidated by a later
-    write on the path to a location they read) imply `goal`.  Returns None if so, else a description of a
-    path on which the goal does not follow."""
+def paths_imply(fm: FuncModel, start: N, target: N, goal, translator, names_killing=None, stop: set[int] | None = None,
+                canon: bool = False) -> str | None:
+    """On every simple path start -> target (avoiding `stop`) the branch conditions taken (those not invalidated
+    by a later write on the path to a location they read) imply `goal`.  Returns None if so, else a description
+    of a path on which the goal does not follow."""
     from .. import logic
-    for path in enumerate_paths(fm, start, target):
+    for path in enumerate_paths(fm, start, target, stop):
         facts = []  # (formula, reads)
         for i in path[:-1] if path and path[-1] == target.id else path:
             n = fm.cfg.nodes[i]
@@ -299,8 +300,14 @@ def paths_imply(fm: FuncModel, start: N, target: N, goal, translator, names_kill
             if w:
                 facts = [(f, r) for f, r in facts if not (r & {x.partition("@")[0] for x in w} or r & w)]
             if n.kind == "branch" and n.test is not None:
-                f = translator.f(n.test)
-                reads = {x.id for x in ast.walk(n.test) if isinstance(x, ast.Name)}
+                if canon:
+                    tnode = fm.cfg.nodes[next(iter(fm.cfg.g.predecessors(n.id)))]
+                    f = fm.translator(tnode).f(n.test)
+                    reads = {r for r in fm.reads_deep(n.test, tnode) if not r.startswith(("F:", "*"))} | \
+                        {r.partition("@")[0] for r in fm.reads_deep(n.test, tnode) if r.startswith("F:")}
+                else:
+                    f = translator.f(n.test)
+                    reads = {x.id for x in ast.walk(n.test) if isinstance(x, ast.Name)}
                 facts.append((f if n.pol else logic.Not(f), reads))
         hyp = logic.And(*[f for f, _ in facts])
         try:
@@ -310,3 +317,82 @@ def paths_imply(fm: FuncModel, start: N, target: N, goal, translator, names_kill
         except logic.TooBig:
             return "path condition too large to decide"
     return None
+
+
+# --------------------------------------------------------------------------- traversal drivers (shared by C03/C13/C19)
+ORDER_WRAPPERS = {"sorted", "list", "reversed", "tuple"}
+
+
+def unwrap_order(e: ast.AST) -> ast.AST:
+    """Strip wrappers that only reorder / copy a sequence (no element is lost)."""
+    while isinstance(e, ast.Call) and callee_name(e) in ORDER_WRAPPERS and e.args and isinstance(e.func, ast.Name):
+        e = e.args[0]
+    return e
+
+
+def _elt_is(x: ast.AST, v: str) -> bool:
+    if isinstance(x, ast.Name) and x.id == v:
+        return True
+    return isinstance(x, ast.Tuple) and bool(x.elts) and isinstance(x.elts[0], ast.Name) and x.elts[0].id == v
+
+
+def schedule_nodes(fm: FuncModel, region: ast.AST, v: str, exclude: set[str] = frozenset()) -> list[N]:
+    """CFG nodes inside `region` that put the value named `v` -- or a tuple (frame) starting with it -- into a
+    container: C.append(v), C.appendleft(v), C.add(v), C.insert(i, v), C.extend([.., v, ..]), C += [.., (v, ..), ..].
+    Containers named in `exclude` (the seen set) do not count."""
+    out = []
+    for x in ast.walk(region):
+        hit = False
+        if isinstance(x, ast.Call) and isinstance(x.func, ast.Attribute) and isinstance(x.func.value, ast.Name) \
+                and x.func.value.id not in exclude and x.args:
+            m = x.func.attr
+            if m in ("append", "appendleft", "add") and _elt_is(x.args[0], v):
+                hit = True
+            elif m == "insert" and len(x.args) == 2 and _elt_is(x.args[1], v):
+                hit = True
+            elif m in ("extend", "extendleft", "update") and isinstance(x.args[0], (ast.List, ast.Tuple, ast.Set)) \
+                    and any(_elt_is(e, v) for e in x.args[0].elts):
+                hit = True
+        elif isinstance(x, ast.AugAssign) and isinstance(x.op, ast.Add) and isinstance(x.target, ast.Name) \
+                and x.target.id not in exclude and isinstance(x.value, (ast.List, ast.Tuple)) \
+                and any(_elt_is(e, v) for e in x.value.elts):
+            hit = True
+        if hit:
+            try:
+                out.append(fm.cfgn(x))
+            except Exception:  # noqa
+                pass
+    return out
+
+
+def frame_pushes(fm: FuncModel, region: ast.AST, cur: str, lst: str) -> list[N]:
+    """CFG nodes that push the frame (cur, lst) back on a stack."""
+    out = []
+    for x in ast.walk(region):
+        els = []
+        if isinstance(x, ast.Call) and isinstance(x.func, ast.Attribute) and x.args:
+            if x.func.attr in ("append", "appendleft"):
+                els = [x.args[0]]
+            elif x.func.attr == "extend" and isinstance(x.args[0], (ast.List, ast.Tuple)):
+                els = list(x.args[0].elts)
+        elif isinstance(x, ast.AugAssign) and isinstance(x.op, ast.Add) and isinstance(x.value, (ast.List, ast.Tuple)):
+            els = list(x.value.elts)
+        for e in els:
+            if isinstance(e, ast.Tuple) and len(e.elts) == 2 and text(e.elts[0]) == cur and text(e.elts[1]) == lst:
+                out.append(fm.cfgn(x))
+    return out
+
+
+def dom_pc_canon(fm: FuncModel, n: N, within=None, numeric=None):
+    """Condition under which n is reached, as evaluated at the dominating tests, over canonical (alias-expanded) keys."""
+    from .. import logic
+    fs = []
+    for b in fm.cfg.dominators(n):
+        if b.kind != "branch" or b.test is None:
+            continue
+        if within is not None and b.id not in within:
+            continue
+        tnode = fm.cfg.nodes[next(iter(fm.cfg.g.predecessors(b.id)))]
+        f = fm.translator(tnode, numeric=numeric).f(b.test)
+        fs.append(f if b.pol else logic.Not(f))
+    return logic.And(*fs)
